@@ -514,6 +514,58 @@ def sort_exclusive_guards(g):
     return cfgm.compact(g, drop=('nop', 'io'))
 
 
+def sort_dispatch_chains(g):
+    """if (v == k1) goto T1; else if (v == k2) goto T2; ... else E  with distinct literals on one variable: exactly one arm is taken
+    whatever the order of the tests (pure, mutually exclusive); sort the (literal, target) pairs over the fixed skeleton of
+    branch nodes.  Interior branches must be entered only from the previous test."""
+    preds = g.preds()
+    seen = set()
+    for b in g.nodes:
+        if b.id in seen or b.kind != 'branch':
+            continue
+        e = _eq_lit(b.stmt[1])
+        if e is None or b.succ[0] == b.succ[1]:
+            continue
+        # walk back to the head of the chain
+        chain = [b]
+        x = b
+        while True:
+            nx = g.nodes[x.succ[1]]
+            e2 = _eq_lit(nx.stmt[1]) if nx.kind == 'branch' else None
+            if e2 is None or e2[0] != e[0] or preds[nx.id] != [x.id] or nx.succ[0] == nx.succ[1] or nx.id in seen or nx in chain:
+                break
+            chain.append(nx)
+            x = nx
+        for c in chain:
+            seen.add(c.id)
+        if len(chain) < 2:
+            continue
+        lits = [_eq_lit(c.stmt[1])[1] for c in chain]
+        if len(set(lits)) != len(lits):
+            continue
+        # final else that leaves the unit within a few straight-line statements: leave the chain alone
+        x, steps, leaves = g.nodes[chain[-1].succ[1]], 0, False
+        while steps < 6:
+            if x.kind in ('throw', 'return'):
+                leaves = True
+                break
+            if x.kind in ('assign', 'call', 'eval') and len(x.succ) == 1:
+                x = g.nodes[x.succ[0]]
+                steps += 1
+                continue
+            break
+        if leaves:
+            continue
+        order = sorted(range(len(chain)), key=lambda k: lits[k])
+        if order == list(range(len(chain))):
+            continue
+        payload = [(chain[k].stmt, chain[k].line, chain[k].succ[0]) for k in order]
+        for c, (st, ln, tgt) in zip(chain, payload):
+            c.stmt, c.line = st, ln
+            c.succ = [tgt, c.succ[1]]
+    return g
+
+
 def drop_defensive_throws(g, record):
     """port-only argument checks of the form `if (cond) throw ...` (one arm of the branch reaches a throw
     without doing anything else): the branch is removed and the site recorded as an admissible difference"""
@@ -880,13 +932,24 @@ def _thread_correlated_branches(g, outputs, lang):
                 o = edge_out(p, slot)
                 if o is TOP:
                     continue
-                for truth in (True, False):
-                    if (k, truth) in o and not (p == b):
-                        tgt = g.nodes[b].succ[0 if truth == pol else 1]
-                        if pn.succ[slot] != tgt:
-                            pn.succ[slot] = tgt
-                            did = True
-                        break
+                known = None
+                if (k, True) in o:
+                    known = True
+                elif (k, False) in o:
+                    known = False
+                else:
+                    e2 = _eq_lit(k)
+                    if e2 is not None:
+                        for (k1, t1) in o:
+                            e1 = _eq_lit(k1)
+                            if t1 and e1 is not None and e1[0] == e2[0] and e1[1] != e2[1]:
+                                known = False      # v == k1 holds, so v == k2 does not
+                                break
+                if known is not None and p != b:
+                    tgt = g.nodes[b].succ[0 if known == pol else 1]
+                    if pn.succ[slot] != tgt:
+                        pn.succ[slot] = tgt
+                        did = True
     return did
 
 
@@ -1056,7 +1119,9 @@ def normalise_cfg(g, outputs, notes, keep_vars=(), lang=None):
                 changed = True
         if not changed:
             break
-    return sort_exclusive_guards(cfgm.compact(g, drop=('nop', 'io')))
+    # dispatch chains whose final else leaves the unit (wrong-level exit: `return` in the reference, `throw` in the port) are not
+    # sorted: the defensive-throw treatment assumes the *last* test of such a chain holds, which is order dependent (DESIGN.md 10.4)
+    return sort_dispatch_chains(sort_exclusive_guards(cfgm.compact(g, drop=('nop', 'io'))))
 
 
 # ------------------------------------------------------------------ event-record idioms (normal-form rule 4)
